@@ -3,11 +3,11 @@ package planner
 import (
 	"context"
 	"fmt"
-	"regexp"
 	"sort"
 	"strings"
 	"time"
 
+	"github.com/getlantern/sqlparser"
 	"github.com/getlantern/zenodb/core"
 	"github.com/getlantern/zenodb/sql"
 )
@@ -189,37 +189,31 @@ func planClusterPushdown(opts *Opts, query *sql.Query) (core.FlatRowSource, erro
 }
 
 func planClusterNonPushdown(opts *Opts, query *sql.Query) (core.FlatRowSource, error) {
-	// Remove group by, having, order by and limit from query
-	sqlString := query.SQL
-	crosstabString := concatForCrosstab(sqlString)
-	lowerSQL := strings.ToLower(sqlString)
-	indexOfGroupBy := strings.Index(lowerSQL, "group by ")
-	indexOfHaving := strings.Index(lowerSQL, "having ")
-	indexOfOrderBy := strings.Index(lowerSQL, "order by ")
-	indexOfLimit := strings.Index(lowerSQL, "limit ")
-	if indexOfGroupBy > 0 {
-		sqlString = sqlString[:indexOfGroupBy]
-	} else if indexOfHaving > 0 {
-		sqlString = sqlString[:indexOfHaving]
-	} else if indexOfOrderBy > 0 {
-		sqlString = sqlString[:indexOfOrderBy]
-	} else if indexOfLimit > 0 {
-		sqlString = sqlString[:indexOfLimit]
+	// Remove group by, having, order by and limit from query. This is done on
+	// the parsed statement rather than by searching the SQL text, so that
+	// keywords inside string literals, names or subqueries of the WHERE clause
+	// don't get the query cut at the wrong place.
+	parsed, reparseErr := sqlparser.Parse(query.SQL)
+	if reparseErr != nil {
+		return nil, fmt.Errorf("Unable to re-parse query: %v", reparseErr)
 	}
-
-	if query.HasHaving {
+	stmt, isSelect := parsed.(*sqlparser.Select)
+	if !isSelect {
+		return nil, fmt.Errorf("Not a SELECT statement: %v", query.SQL)
+	}
+	crosstabString := concatForCrosstab(stmt)
+	if query.HasHaving && stmt.Having != nil {
 		// Insert having field
-		fromRegex, err := regexp.Compile(fmt.Sprintf("from\\s+%v", strings.ToLower(query.FromSQL)))
-		if err != nil {
-			return nil, fmt.Errorf("Unable to compile from regex: %v", err)
-		}
-		fromIndexes := fromRegex.FindStringIndex(lowerSQL)
-		if len(fromIndexes) == 0 {
-			return nil, fmt.Errorf("FROM clause not found!")
-		}
-		indexOfFrom := fromIndexes[0]
-		sqlString = fmt.Sprintf("%v, %v %v", sqlString[:indexOfFrom], query.HavingSQL, sqlString[indexOfFrom:])
+		stmt.SelectExprs = append(stmt.SelectExprs, &sqlparser.NonStarExpr{
+			Expr: stmt.Having.Expr,
+			As:   []byte(core.HavingFieldName),
+		})
 	}
+	stmt.GroupBy = nil
+	stmt.Having = nil
+	stmt.OrderBy = nil
+	stmt.Limit = nil
+	sqlString := sqlparser.String(stmt)
 
 	hasGroupBy := len(query.GroupBy) > 0
 	hasCrosstab := crosstabString != ""
@@ -311,39 +305,19 @@ func planAsIfLocal(opts *Opts, sqlString string) (core.FlatRowSource, error) {
 	return planLocal(query, unclusteredOpts)
 }
 
-func concatForCrosstab(sql string) string {
-	crosstab := "CROSSTABT"
-	idx := strings.Index(strings.ToUpper(sql), crosstab)
-	if idx < 0 {
-		crosstab = "CROSSTAB"
-		idx = strings.Index(strings.ToUpper(sql), crosstab)
-	}
-	if idx < 0 {
-		return ""
-	}
-	var out []byte
-	out = append(out, []byte("concat('_', ")...)
-	idx += len(crosstab + "(")
-	level := 1
-parseLoop:
-	for ; idx < len(sql); idx++ {
-		c := sql[idx]
-		switch c {
-		case '(':
-			level++
-			out = append(out, c)
-			fmt.Printf("Descend at %v\n", string(out))
-		case ')':
-			level--
-			out = append(out, c)
-			fmt.Printf("Ascend at %v\n", string(out))
-			if level == 0 {
-				break parseLoop
-			}
-		default:
-			out = append(out, c)
+// concatForCrosstab renders the arguments of the query's CROSSTAB (or
+// CROSSTABT) as a concatenated group by dimension named _crosstab. It returns
+// "" if the query has no crosstab.
+func concatForCrosstab(stmt *sqlparser.Select) string {
+	for _, e := range stmt.GroupBy {
+		nse, ok := e.(*sqlparser.NonStarExpr)
+		if !ok {
+			continue
+		}
+		fn, ok := nse.Expr.(*sqlparser.FuncExpr)
+		if ok && strings.HasPrefix(strings.ToUpper(string(fn.Name)), "CROSSTAB") {
+			return fmt.Sprintf("concat('_', %v) as _crosstab", sqlparser.String(fn.Exprs))
 		}
 	}
-	out = append(out, []byte(" as _crosstab")...)
-	return string(out)
+	return ""
 }
